@@ -63,6 +63,8 @@ THEOREMS = [
         "C02_graph",
         "C02_function",
         "C02_model",
+        "C02_model_norm",
+        "C02_norm_idempotent",
     )
 ]
 ASSUMPTIONS = [
@@ -929,7 +931,7 @@ class Gen:
             self.node(g.node.add(), scopes + [declared], node_outs[i], depth, False, ir_version)
         produced = [o for i in order for o in node_outs[i] if o]
         out_names = self.r.sample(produced, min(len(produced), self.r.randrange(3)))
-        outer = [x for sc in scopes for x in sc]
+        outer = [x for sc in scopes for x in sc if x not in declared]
         if depth and outer and self.r.random() < 0.3:
             out_names.append(self.r.choice(outer))  # a subgraph returning an outer value
         for nm in dict.fromkeys(out_names):
